@@ -147,7 +147,10 @@ def transcribe_phys(inst, z_of_key=None):
         return r
     R = r[1]
     p, N = R["problem"], R["N"]
-    lay = S.recover_layout(p, inst, N)
+    try:
+        lay = S.recover_layout(p, inst, N)
+    except RuntimeError as e:
+        return ("bad-results", str(e))
     keys, idx, nu = named_entries(inst, p, lay)
     if sorted(idx.tolist()) != list(range(N)):
         return ("raise", "layout does not cover the decision vector")
@@ -307,6 +310,10 @@ def stream_pairs(c, n):
                                 for v, w in zip(inst["vars"], inst2["vars"])))
         c.count(("pair", inst["E"], len(inst["times"]), nomkinds, ra[0], rb[0]))
         c.hit("pair/" + ra[0])
+        if "bad-results" in (ra[0], rb[0]):
+            c.fail("extract_results() of X = arange(N) is not nominal * index for some variable: results are "
+                   "not in physical units", case, [ra[1] if ra[0] != "ok" else "ok", rb[1] if rb[0] != "ok" else "ok"])
+            continue
         if ra[0] != rb[0]:
             c.fail("changing only nominals changes whether the problem can be transcribed", case,
                    {"a": ra[1] if ra[0] == "raise" else "ok", "b": rb[1] if rb[0] == "raise" else "ok"})
@@ -429,7 +436,7 @@ def gp_instance(rng):
     return inst
 
 
-def run_gp(inst, goals_spec, record):
+def run_gp(inst, goals_spec, record, fix_min=None):
     """goals_spec: list of dicts (priority, kind 'target'|'min', order, weight, nominal, tmin, tmax, var)"""
     from rtctools.optimization.goal_programming_mixin import Goal, GoalProgrammingMixin
 
@@ -445,7 +452,10 @@ def run_gp(inst, goals_spec, record):
         g.weight = gs["weight"]
         g.function_nominal = gs["nominal"]
         if gs["kind"] == "target":
-            g.function_range = tuple(gs["range"])
+            if gs.get("critical"):
+                g.critical = True
+            else:
+                g.function_range = tuple(gs["range"])
             if gs.get("tmin") is not None:
                 g.target_min = gs["tmin"]
             if gs.get("tmax") is not None:
@@ -478,11 +488,14 @@ def run_gp(inst, goals_spec, record):
 
     def goal_programming_options(self):
         o = super(type(self), self).goal_programming_options()
+        if fix_min is not None:
+            o["fix_minimized_values"] = fix_min
         return o
 
     p = S.make_problem(inst, None, base_mixins=(GoalProgrammingMixin,),
                        overrides=dict(path_goals=path_goals, priority_completed=priority_completed,
-                                      solver_options=solver_options))
+                                      solver_options=solver_options,
+                                      goal_programming_options=goal_programming_options))
     with quiet_fd():
         ok = p.optimize()
     return ok
@@ -492,6 +505,10 @@ def goal_measure(gs, x):
     """physical achievement of a goal on the trajectory x: what its priority minimises, nominal free"""
     if gs["kind"] == "min":
         return float(np.sum(x ** gs["order"]))
+    if gs.get("critical"):  # hard: measured as the worst violation (must be ~0 in both runs)
+        lo = gs["tmin"] if gs.get("tmin") is not None else -INF
+        hi = gs["tmax"] if gs.get("tmax") is not None else INF
+        return float(max(0.0, np.max(lo - x), np.max(x - hi)))
     m, M = gs["range"]
     tot = 0.0
     for xv in x:
@@ -516,24 +533,38 @@ def stream_gp(c, n):
                      range=(-50.0, 50.0), tmin=tmin, tmax=tmin + rng.choice([2.0, 6.0]), var="x0"),
                 dict(priority=2, kind="min", order=order_m, weight=rng.choice([1.0, 0.5, 3.0]), nominal=1.0,
                      var=rng.choice(["x0", "u0"]))]
-        if rng.random() < 0.3:
+        r = rng.random()
+        if r < 0.2:
             spec = spec[1:]
+        elif r < 0.5:
+            # a critical goal (hard bounds in units of its nominal) on the control, alone in priority 0
+            cm = float(rng.randint(-6, -1))
+            spec = [dict(priority=0, kind="target", critical=True, order=1, weight=1.0, nominal=1.0,
+                         tmin=cm, tmax=cm + rng.choice([4.0, 9.0]), var="u0")] + spec
+        elif r < 0.85:
+            # a third priority, so that the value retained for the minimisation goal matters
+            spec = spec + [dict(priority=3, kind="min", order=1, weight=1.0, nominal=1.0,
+                                var=("u0" if spec[1]["var"] == "x0" else "x0"))]
         specs = []
         for _v in range(2):
             s2 = copy.deepcopy(spec)
+            lp = all(g["order"] == 1 for g in s2)
             for gs in s2:
-                gs["nominal"] = rng.choice(NOMS)
+                # full range with the LP solver; with IPOPT (order-2 goals) a function nominal that is
+                # orders of magnitude off makes the termination tolerance, not the model, decide the
+                # third digit, so a moderate range there
+                gs["nominal"] = rng.choice(NOMS) if lp else rng.choice([1.0, 2.0, 0.5, 4.0, 0.25, 3.0])
             specs.append(s2)
-        jobs.append((inst, specs))
+        jobs.append((inst, specs, rng.choice([None, True, False])))
     lines, meta = [], []
-    for inst, specs in jobs:
-        case = {"instance": c05.case_of(inst), "goals": specs}
+    for inst, specs, fix_min in jobs:
+        case = {"instance": c05.case_of(inst), "goals": specs, "fix_minimized_values": fix_min}
         recs = []
         oks = []
         for sp in specs:
             rec = []
             try:
-                ok = run_gp(inst, sp, rec)
+                ok = run_gp(inst, sp, rec, fix_min)
             except Exception as e:
                 ok = "raise: %s" % type(e).__name__
             oks.append(ok)
@@ -553,6 +584,14 @@ def stream_gp(c, n):
             ra, rb = recs[0][k], recs[1][k]
             # every goal solved so far keeps its achieved value, whichever nominal is used
             for j in range(k + 1):
+                # the optimal *value* of a priority is nominal free; its optimal *point* need not be
+                # unique (an order-1 minimisation goal is an LP), and what is retained for later
+                # priorities is the point (per-step values).  So a goal's own optimum is compared only
+                # if no earlier priority had a possibly non-unique minimiser; earlier goals keep their
+                # optimal value in any case.
+                if j == k and any(g["kind"] == "min" and g["order"] == 1 for g in specs[0][:j]):
+                    c.hit("gp/own-optimum-skipped (earlier LP minimiser not unique)")
+                    continue
                 ma = goal_measure(specs[0][j], ra[1][specs[0][j]["var"]])
                 mb = goal_measure(specs[1][j], rb[1][specs[1][j]["var"]])
                 # LP runs (HiGHS, vertex solutions): 1e-6; interior-point runs (order-2 goals, IPOPT): the
@@ -738,14 +777,16 @@ def run(c):
     )
     c.assumptions = [
         "CasADi evaluates the expressions it is given; Jacobian / g(0) of an affine instance determine its rows",
-        "HiGHS returns an optimal point of the LP/QP it is given (stream B compares achieved goal values at 1e-6)",
+        "HiGHS returns an optimal point of the LP it is given (stream B: order-1 goals, function nominals "
+        "1e-3..1e4, achieved goal values compared at 1e-6); order-2 goals are solved with IPOPT, function "
+        "nominals 0.25..4, compared at 1e-3 (termination tolerance, not exact optimality)",
         "rows are arbitrary functions of the decoded trajectory in the model; that the code touches the decision "
         "vector only through nominal * X is what stream A checks on every generated instance",
         "nominals are positive (negative nominals under negated aliases: F2, repaired in 7f4289d)",
     ]
     c.prove()
     run_pairs(c, c.n(40, 400))
-    stream_gp(c, c.n(12, 120))
+    stream_gp(c, c.n(40, 300))
     probe_f25(c)
     stream_sim(c, c.n(3, 20))
     c.notes.append("pairs of real runs are samples; the unbounded claim is carried by the theorems "
